@@ -238,13 +238,13 @@ def outline(disp, sim, tr):
         def zeros(s, *x, **y):
             return TArr(np.zeros(*x, **y), "alloc", tr)
 
-    # tuning knobs: module-level ALL-CAPS integer thresholds (block sizes at which another code path takes
-    # over) are shrunk for the run when the schedule says so, so that small blocks reach the large-block paths
+    # tuning knobs: module-level ALL-CAPS integer constants (block sizes or thread counts at which another code
+    # path takes over) are replaced for the run when the schedule says so, so that small blocks reach those paths
     sim.knobs_changed = []
     knob = sim.sch.get("knobs")
     if knob:
         for k, v in list(ns.items()):
-            if k.isupper() and type(v) is int and v >= 256:
+            if k.isupper() and type(v) is int and v >= 2:
                 ns[k] = int(knob)
                 sim.knobs_changed.append(k)
     ns["np"] = NP()
